@@ -54,6 +54,13 @@ def points(tier: str) -> List[Dict[str, Any]]:
                 for forced in (None, "QU", "QM"):
                     pts.append({"cache": st, "timeout": timeout, "arrive": dict(zip(missing, arr)), "forced": forced,
                                 "extra": False})
+    # a lookup object that is used again after the service moved to another host
+    for b_state in ("absent", "fresh", "expired"):
+        for b_arrives in ("never", 50, 250):
+            for timeout in (300, 3000):
+                for txt_changes in (False, True):
+                    pts.append({"reuse": True, "b_state": b_state, "b_arrives": b_arrives, "timeout": timeout,
+                                "txt_changes": txt_changes, "cache": {}, "arrive": {}, "forced": None, "extra": False})
     # extra address / old host variants on a reduced set
     for st_a in ("fresh", "stale"):
         for st_srv in ("fresh", "absent", "expired"):
@@ -69,6 +76,8 @@ def run_point(p: Dict[str, Any], verbose: bool = False) -> Tuple[Optional[Dict[s
     from zeroconf.asyncio import AsyncServiceInfo
 
     problems: List[str] = []
+    if p.get("reuse"):
+        return run_reuse(p, verbose)
     st, timeout, arrive = p["cache"], p["timeout"], p["arrive"]
     with World(rand=RandPolicy.const(0.0)) as w:
         host = w.new_zeroconf()
@@ -216,6 +225,92 @@ def run_point(p: Dict[str, Any], verbose: bool = False) -> Tuple[Optional[Dict[s
                   "addresses", info.addresses_by_version(__import__("zeroconf").IPVersion.All))
             for d in sent:
                 print(f"    +{d.t_ms - t0:.1f}", d.brief())
+    verdict = None
+    if problems:
+        verdict = {"what": f"C18 {p}: {problems[0][:600]}", "replay": {"problems": problems[:5]},
+                   "signature": {"check": problems[0].split(":")[0]}}
+    return verdict, obs, 1
+
+
+HOST_B = "hb.local."
+SRV_B = ("SRV", NAME, 0x8001, 120, 1, 2, 81, HOST_B)
+A_B = ("A", HOST_B, 0x8001, 120, bytes([10, 0, 0, 20]))
+A_B_OLD = ("A", HOST_B, 0x8001, 10, bytes([10, 9, 9, 20]))
+TXT_B = ("TXT", NAME, 0x8001, 4500, b"\x05a=two")
+
+
+def run_reuse(p: Dict[str, Any], verbose: bool = False) -> Tuple[Optional[Dict[str, Any]], str, int]:
+    """The same AsyncServiceInfo object resolves the instance twice; in between the service moves to host B."""
+    from zeroconf import IPVersion
+    from zeroconf.asyncio import AsyncServiceInfo
+
+    problems: List[str] = []
+    timeout = p["timeout"]
+    with World(rand=RandPolicy.const(0.0)) as w:
+        host = w.new_zeroconf()
+        zc = host.zc
+
+        def inject(recs: List[tuple], n: int) -> None:
+            w.net.inject(host, wire.encode(n, 0x8400, (), recs), ("10.0.0.50", 5353))
+            w.settle()
+
+        w.advance(4000)
+        inject([GOOD["srv"], GOOD["txt"], GOOD["a"]], 1)
+        info = AsyncServiceInfo(TYPE, NAME)
+        first = w.run_coro(info.async_request(zc, 3000))
+        if not first or info.server != HOSTN:
+            problems.append(f"reuse: first lookup failed ({first}, {info.server})")
+        if p["b_state"] == "expired":
+            inject([A_B_OLD], 2)
+        w.advance(12_000)  # the old copy of B's address (if any) expires; next purge is still some seconds away
+        if p["b_state"] == "fresh":
+            inject([A_B], 3)
+        inject([SRV_B] + ([TXT_B] if p["txt_changes"] else []), 4)  # cache-flush: the old SRV (and TXT) go within a second
+        w.advance(1500)
+        t0 = w.now_ms
+        if p["b_arrives"] != "never":
+            w.loop.call_at((t0 + p["b_arrives"]) / 1000, w.net.inject, host, wire.encode(5, 0x8400, (), [A_B]), ("10.0.0.50", 5353))
+        n_before = len(w.net.trace)
+        done: Dict[str, Any] = {}
+
+        async def go() -> None:
+            done["result"] = await info.async_request(zc, timeout)
+            done["t"] = w.now_ms - t0
+
+        w.spawn(go())
+        w.advance(timeout + 1500)
+        known = 0.0 if p["b_state"] == "fresh" else (None if p["b_arrives"] == "never" else float(p["b_arrives"]))
+        if "t" not in done:
+            problems.append("bounded: the second lookup never returned")
+        else:
+            res, t_ret = done["result"], done["t"]
+            if t_ret > timeout + 0.001:
+                problems.append(f"bounded: returned after {t_ret:.0f} ms, timeout {timeout}")
+            if known is None or known > timeout:
+                if res:
+                    problems.append(f"iff: second lookup returned True although no unexpired address of the new host {HOST_B} "
+                                    f"was ever known (addresses {info.addresses_by_version(IPVersion.All)})")
+            elif known < timeout and not res:
+                problems.append(f"iff: second lookup returned False although {HOST_B} had an address at +{known}")
+            if res:
+                addrs = set(info.addresses_by_version(IPVersion.All))
+                if info.server != HOST_B or info.port != 81:
+                    problems.append(f"provenance: server/port {(info.server, info.port)} not from the unexpired SRV record")
+                if not addrs or not addrs <= {A_B[4]}:
+                    problems.append(f"provenance: addresses {sorted(addrs)} are not address records of {HOST_B}")
+                if p["txt_changes"] and info.text != TXT_B[4]:
+                    problems.append(f"provenance: text {info.text!r} is not the unexpired TXT record")
+            sent = [Decoded(s) for s in w.net.trace[n_before:] if s.host == host.name]
+            if known == 0.0 and sent:
+                problems.append("cache-first: datagrams sent although the cache sufficed")
+            if known != 0.0 and not sent:
+                problems.append(f"queries: nothing asked although no address of {HOST_B} was cached")
+        excs = w.exceptions()
+        if excs:
+            problems.append(f"exception in the event loop: {excs[0]}")
+        obs = digest((done.get("result"), done.get("t"), sorted(info.addresses_by_version(IPVersion.All)), info.server))
+        if verbose:
+            print("    second lookup:", done, info.server, info.port, info.text, info.addresses_by_version(IPVersion.All))
     verdict = None
     if problems:
         verdict = {"what": f"C18 {p}: {problems[0][:600]}", "replay": {"problems": problems[:5]},
